@@ -8,7 +8,7 @@ def run(ctx: Ctx) -> int:
     n = ctx.pick(120, 1500)
     from lib import e4_corpus
     from lib.e4_region import tags
-    nfixed = len([s for s in e4_corpus.C03_FIXED if not tags(s)])
+    nfixed = len(e4_corpus.corpus("c03", n, ctx.seed)) - n       # fixed programs + array-flavoured generated ones, all outside the regions
     jobs = e4_check.jobs_for(ctx, "c03", n, batch=3, timeout=ctx.pick(240, 1200), total=n + nfixed)
     want = ctx.pick(3, 12)
     have = len(e4_corpus.corpus("c03", want, ctx.seed, "hoist-order"))
